@@ -1,6 +1,7 @@
 pub mod backend;
 pub mod c04;
 pub mod c09;
+pub mod c14;
 pub mod c15;
 pub mod c18;
 pub mod c20;
@@ -21,6 +22,7 @@ pub fn all_checks() -> Vec<Box<dyn driver::Check>> {
     vec![
         Box::new(c04::C04),
         Box::new(c09::C09),
+        Box::new(c14::C14),
         Box::new(c15::C15),
         Box::new(c18::C18),
         Box::new(crashchecks::c01()),
